@@ -1,5 +1,6 @@
 import BpProofs.SrcTie
 import BpProofs.Props.C16
+import BpProofs.Len
 /-
   C09, tied to the SOURCE: `__len__` is a second, hand-duplicated copy of the serialisation
   walk.  The arithmetic both copies are built from — `size_varint` against `encode_varint`,
@@ -56,5 +57,30 @@ theorem src_lendelim_len (num fuel : Nat) (value output : Bytes)
       simp only [Except.map, Except.bind, Py.ofR, Res.bind, List.length_append]
       congr 1
       omega
+
+/-- **the whole framing of a field, as written**: everything `_serialize_single` does after
+    `_preprocess_single` is the model's `frame` — which key, whether a length prefix, and the
+    emission test `len(value) or serialize_empty or wraps` -/
+theorem src_serialize_frame (num fuel : Nat) (t : PType) (value : Bytes) (se wraps : Bool)
+    (hf : num * 8 + 5 + value.length + 2 ^ 64 < fuel) :
+    Src.serialize_frame fuel (num : Int) t value se wraps = Py.ofR (frame num t value se wraps) :=
+  SrcTie.serialize_frame_eq num fuel t value se wraps hf
+
+/-- … and everything `_len_single` does after `_len_preprocessed_single` is the model's `lenFrame` -/
+theorem src_len_frame (num fuel : Nat) (t : PType) (size : Nat) (se wraps : Bool) :
+    Src.len_frame fuel (num : Int) t (size : Int) se wraps =
+      Py.ofR ((lenFrame num t size se wraps).map fun (n : Nat) => (n : Int)) :=
+  SrcTie.len_frame_eq num fuel t size se wraps
+
+/-- **`_len_single` and `_serialize_single` as written agree on every field**: for every field
+    number, proto type, preprocessed value and flag combination, the framing of `_len_single`
+    applied to `len(value)` returns the length of what the framing of `_serialize_single`
+    returns for `value`, and the two raise together -/
+theorem src_frame_len_agrees (num fuel : Nat) (t : PType) (value : Bytes) (se wraps : Bool)
+    (hf : num * 8 + 5 + value.length + 2 ^ 64 < fuel) :
+    Src.len_frame fuel (num : Int) t ((value.length : Nat) : Int) se wraps =
+      (Src.serialize_frame fuel (num : Int) t value se wraps).bind fun out => .ok ((out.length : Nat) : Int) := by
+  rw [src_len_frame, src_serialize_frame num fuel t value se wraps hf, lenFrame_eq]
+  cases frame num t value se wraps <;> rfl
 
 end Bp.C09
